@@ -12,7 +12,9 @@ const (
 	maxDecodeNodes = 10000
 )
 
-func decodeFromBuffer(buf *bytes.Buffer, depth int, nodeCount *int) (nodes *TlvNodes, err error) {
+// indefinite: true if decoding the contents of an indefinite-length element, i.e. the only
+// context in which an end-of-contents marker (00 00) is meaningful
+func decodeFromBuffer(buf *bytes.Buffer, depth int, nodeCount *int, indefinite bool) (nodes *TlvNodes, err error) {
 	if depth > maxDecodeDepth {
 		return nil, fmt.Errorf("[decode] exceeded maximum nesting depth (%d)", maxDecodeDepth)
 	}
@@ -26,6 +28,11 @@ func decodeFromBuffer(buf *bytes.Buffer, depth int, nodeCount *int) (nodes *TlvN
 		}
 
 		if tag == 0 && length == 0 {
+			if !indefinite {
+				// end-of-contents outside of an indefinite-length element would silently
+				// drop bytes from the decoded tree
+				return nil, fmt.Errorf("[decode] unexpected end-of-contents (00 00) in definite-length context")
+			}
 			return nodes, nil
 		}
 
@@ -38,7 +45,7 @@ func decodeFromBuffer(buf *bytes.Buffer, depth int, nodeCount *int) (nodes *TlvN
 			var children *TlvNodes
 
 			if length == -1 {
-				children, err = decodeFromBuffer(buf, depth+1, nodeCount)
+				children, err = decodeFromBuffer(buf, depth+1, nodeCount, true)
 				if err != nil {
 					return nil, fmt.Errorf("[decode] error: %w", err)
 				}
@@ -48,7 +55,7 @@ func decodeFromBuffer(buf *bytes.Buffer, depth int, nodeCount *int) (nodes *TlvN
 					return nil, fmt.Errorf("[decode] ByteBuffer error: %w", err)
 				}
 				childBuf := bytes.NewBuffer(childData)
-				children, err = decodeFromBuffer(childBuf, depth+1, nodeCount)
+				children, err = decodeFromBuffer(childBuf, depth+1, nodeCount, false)
 				if err != nil {
 					return nil, fmt.Errorf("[decode] error: %w", err)
 				}
@@ -79,7 +86,7 @@ func Decode(data []byte) (nodes *TlvNodes, err error) {
 	nodeCount := 0
 	buf := bytes.NewBuffer(data)
 
-	nodes, err = decodeFromBuffer(buf, 0, &nodeCount)
+	nodes, err = decodeFromBuffer(buf, 0, &nodeCount, false)
 	if err != nil {
 		return nil, err
 	}
